@@ -128,11 +128,11 @@ CLAIMED["C18"] = dict(
 )
 
 CLAIMED["C11"] = dict(
-    category="other",
-    technique="Coq model of the Pratt loop (expr_bp, arg_list, binding powers) and of the call re-association in lowering, plus a printer with only the necessary parentheses; pinned theorem on the binding-power table; the model is compared with the real parser+lowering on the same token strings inside coqc; print/parse round trip of exhaustive operator pairs/triples and random trees and literal fidelity are evaluated on the real parser (AST Debug dump) and, for printed strings, through Sem/GoSem.v",
-    text="binding_powers_as_documented (left associativity r = l+1, the documented level order, calls/fields/prefix above every binary operator; no axioms). Round trip: every operator pair in both shapes, triples in five shapes, prefix x binary, calls, fields, tuples, 1500+ random trees with random trivia must parse back to the same ast::Expr; the Coq parser/lowering/printer model must agree on the same cases. Literals: strings with every escape spelling, multi-line strings (LF and CRLF), integer/float spellings via the AST, and printed output of compiled programs. The unbounded round-trip theorem for the model is not proved yet.",
+    technique="Coq proof that, for the model of the Pratt loop (expr_bp, arg_list, binding powers) and of the call re-association in lowering, parsing the minimal-parentheses rendering of any tree of the class ok returns that tree (induction over trees, 'for all sufficiently large fuel'); pinned theorem on the binding-power table; the model and the class are compared with the real parser+lowering on the same token strings inside coqc; literal fidelity evaluated on the real parser and through Sem/GoSem.v",
+    text="print_then_parse_is_identity: for every tree whose callees are atoms/calls/field accesses and whose prefix operands carry no call on their postfix chain, parse_fuel f (print e) = Some e for all large f (no axioms); binding_powers_as_documented; refutation examples for the three association deviations outside the class (known findings). "
+         "Tied to parser/src/expr.rs and ast/src/lower.rs by running the model and the real parser on all operator pairs/triples, prefix x binary, calls, fields and 1500+ random trees (every one must be in ok, parse to itself in both, and print to the same tokens); literals: every escape spelling, multi-line strings (LF/CRLF), integer and float spellings, printed output of compiled programs.",
     design_ref="DESIGN.md §4 C11",
-    note=TRUST + " Items, patterns and types are not printed from trees (their losslessness is C12's); three call-association deviations are known findings and masked in the generator.",
+    note=TRUST + " Items, patterns, types and the non-operator expression forms are outside the model; adequacy of the model's concrete fuel is tested, not proved.",
 )
 
 CLAIMED["C14"] = dict(
